@@ -79,4 +79,271 @@ theorem ins_br (pre0 : List PToken) (o : PToken) (wsA : List PToken) (e : Ex) (w
           refine ⟨.br pre0 o wsA e (pre5 ++ p :: w :: post1) c, ⟨fun F inG hk => ?_, rfl, rfl, rfl⟩, by simp [Ex.toks]⟩
           simp_all [Ex.ok, triv_fill hw, triv_gfill hw]
 
+/-- a bracketed tree with a separator / comma before the closing bracket: `brT` and `brC` have the same token layout -/
+theorem ins_brT (pre0 : List PToken) (o : PToken) (wsA : List PToken) (e : Ex) (ws1 : List PToken) (t : PToken)
+    (ws2 : List PToken) (c : PToken) (ih : InsOK w e) : InsOK w (.brT pre0 o wsA e ws1 t ws2 c) := by
+  intro F inG hok pre p post h hpost hg
+  simp only [Ex.toks] at h
+  rcases split_app h with ⟨post1, h1, h2⟩ | ⟨pre2, h1, h2⟩
+  · exfalso
+    have hnp := good_not_prefix hg
+    subst h1
+    simp_all [Ex.ok, triv_fill hw, triv_gfill hw]
+  · subst h1
+    rcases split_cons h2 with ⟨h3, h4, h5⟩ | ⟨pre3, h3, h5⟩
+    · subst h3 h4 h5
+      refine ⟨.brT pre0 o (w :: wsA) e ws1 t ws2 c, ⟨fun F inG hk => ?_, rfl, rfl, rfl⟩, by simp [Ex.toks]⟩
+      simp_all [Ex.ok, triv_fill hw, triv_gfill hw]
+    · subst h3
+      rcases split_app h5 with ⟨post1, h6, h7⟩ | ⟨pre4, h6, h7⟩
+      · subst h6 h7
+        refine ⟨.brT pre0 o (pre3 ++ p :: w :: post1) e ws1 t ws2 c, ⟨fun F inG hk => ?_, rfl, rfl, rfl⟩, by simp [Ex.toks]⟩
+        simp_all [Ex.ok, triv_fill hw, triv_gfill hw]
+      · subst h6
+        rcases split_app h7 with ⟨post1, h8, h9⟩ | ⟨pre5, h8, h9⟩
+        · subst h9
+          have hke : e.ok F false = true := by simp_all [Ex.ok, triv_fill hw, triv_gfill hw]
+          by_cases hp1 : post1 = []
+          · subst hp1
+            refine ⟨.brT pre0 o wsA e (w :: ws1) t ws2 c, ⟨fun F inG hk => ?_, rfl, rfl, rfl⟩, by simp [Ex.toks, h8]⟩
+            simp_all [Ex.ok, triv_fill hw, triv_gfill hw]
+          · obtain ⟨e', hl, ht⟩ := ih F _ hke pre4 p post1 h8 hp1 hg
+            refine ⟨.brT pre0 o wsA e' ws1 t ws2 c, ⟨fun F inG hk => ?_, by simp [Ex.garb, hl.2.1], rfl, rfl⟩,
+              by simp [Ex.toks, ht]⟩
+            have := hl.1 F false
+            simp_all [Ex.ok, triv_fill hw, triv_gfill hw]
+        · subst h8
+          rcases split_app h9 with ⟨post1, h10, h11⟩ | ⟨pre6, h10, h11⟩
+          · subst h10 h11
+            refine ⟨.brT pre0 o wsA e (pre5 ++ p :: w :: post1) t ws2 c, ⟨fun F inG hk => ?_, rfl, rfl, rfl⟩, by simp [Ex.toks]⟩
+            simp_all [Ex.ok, triv_fill hw, triv_gfill hw]
+          · subst h10
+            rcases split_cons h11 with ⟨h12, h13, h14⟩ | ⟨pre7, h12, h14⟩
+            · subst h12 h13 h14
+              refine ⟨.brT pre0 o wsA e ws1 t (w :: ws2) c, ⟨fun F inG hk => ?_, rfl, rfl, rfl⟩, by simp [Ex.toks]⟩
+              simp_all [Ex.ok, triv_fill hw, triv_gfill hw]
+            · subst h12
+              obtain ⟨post1, h15, h16⟩ := tail_ws_c h14 hpost
+              subst h15 h16
+              refine ⟨.brT pre0 o wsA e ws1 t (pre7 ++ p :: w :: post1) c, ⟨fun F inG hk => ?_, rfl, rfl, rfl⟩, by simp [Ex.toks]⟩
+              simp_all [Ex.ok, triv_fill hw, triv_gfill hw]
+
+theorem ins_brC (pre0 : List PToken) (o : PToken) (wsA : List PToken) (e : Ex) (ws1 : List PToken) (k : PToken)
+    (wsB : List PToken) (c : PToken) (ih : InsOK w e) : InsOK w (.brC pre0 o wsA e ws1 k wsB c) := by
+  intro F inG hok pre p post h hpost hg
+  simp only [Ex.toks] at h
+  rcases split_app h with ⟨post1, h1, h2⟩ | ⟨pre2, h1, h2⟩
+  · exfalso
+    have hnp := good_not_prefix hg
+    subst h1
+    simp_all [Ex.ok, triv_fill hw, triv_gfill hw]
+  · subst h1
+    rcases split_cons h2 with ⟨h3, h4, h5⟩ | ⟨pre3, h3, h5⟩
+    · subst h3 h4 h5
+      refine ⟨.brC pre0 o (w :: wsA) e ws1 k wsB c, ⟨fun F inG hk => ?_, rfl, rfl, rfl⟩, by simp [Ex.toks]⟩
+      simp_all [Ex.ok, triv_fill hw, triv_gfill hw]
+    · subst h3
+      rcases split_app h5 with ⟨post1, h6, h7⟩ | ⟨pre4, h6, h7⟩
+      · subst h6 h7
+        refine ⟨.brC pre0 o (pre3 ++ p :: w :: post1) e ws1 k wsB c, ⟨fun F inG hk => ?_, rfl, rfl, rfl⟩, by simp [Ex.toks]⟩
+        simp_all [Ex.ok, triv_fill hw, triv_gfill hw]
+      · subst h6
+        rcases split_app h7 with ⟨post1, h8, h9⟩ | ⟨pre5, h8, h9⟩
+        · subst h9
+          have hke : e.ok F (Ex.opensGroup o) = true := by simp_all [Ex.ok, triv_fill hw, triv_gfill hw]
+          by_cases hp1 : post1 = []
+          · subst hp1
+            refine ⟨.brC pre0 o wsA e (w :: ws1) k wsB c, ⟨fun F inG hk => ?_, rfl, rfl, rfl⟩, by simp [Ex.toks, h8]⟩
+            simp_all [Ex.ok, triv_fill hw, triv_gfill hw]
+          · obtain ⟨e', hl, ht⟩ := ih F _ hke pre4 p post1 h8 hp1 hg
+            refine ⟨.brC pre0 o wsA e' ws1 k wsB c, ⟨fun F inG hk => ?_, by simp [Ex.garb, hl.2.1], rfl, rfl⟩,
+              by simp [Ex.toks, ht]⟩
+            have := hl.1 F (Ex.opensGroup o)
+            simp_all [Ex.ok, triv_fill hw, triv_gfill hw]
+        · subst h8
+          rcases split_app h9 with ⟨post1, h10, h11⟩ | ⟨pre6, h10, h11⟩
+          · subst h10 h11
+            refine ⟨.brC pre0 o wsA e (pre5 ++ p :: w :: post1) k wsB c, ⟨fun F inG hk => ?_, rfl, rfl, rfl⟩, by simp [Ex.toks]⟩
+            simp_all [Ex.ok, triv_fill hw, triv_gfill hw]
+          · subst h10
+            rcases split_cons h11 with ⟨h12, h13, h14⟩ | ⟨pre7, h12, h14⟩
+            · subst h12 h13 h14
+              refine ⟨.brC pre0 o wsA e ws1 k (w :: wsB) c, ⟨fun F inG hk => ?_, rfl, rfl, rfl⟩, by simp [Ex.toks]⟩
+              simp_all [Ex.ok, triv_fill hw, triv_gfill hw]
+            · subst h12
+              obtain ⟨post1, h15, h16⟩ := tail_ws_c h14 hpost
+              subst h15 h16
+              refine ⟨.brC pre0 o wsA e ws1 k (pre7 ++ p :: w :: post1) c, ⟨fun F inG hk => ?_, rfl, rfl, rfl⟩, by simp [Ex.toks]⟩
+              simp_all [Ex.ok, triv_fill hw, triv_gfill hw]
+
+theorem ins_bin (e1 : Ex) (ws1 : List PToken) (op : PToken) (ws2 : List PToken) (x : Ex) (ih1 : InsOK w e1)
+    (ihx : InsOK w x) : InsOK w (.bin e1 ws1 op ws2 x) := by
+  intro F inG hok pre p post h hpost hg
+  simp only [Ex.toks] at h
+  rcases split_app h with ⟨post1, h1, h2⟩ | ⟨pre2, h1, h2⟩
+  · subst h2
+    have hke : e1.ok F inG = true := by simp_all [Ex.ok, triv_fill hw, triv_gfill hw]
+    by_cases hp1 : post1 = []
+    · subst hp1
+      refine ⟨.bin e1 (w :: ws1) op ws2 x, ⟨fun F inG hk => ?_, rfl, rfl, rfl⟩, by simp [Ex.toks, h1]⟩
+      simp_all [Ex.ok, triv_fill hw, triv_gfill hw]
+    · obtain ⟨e', hl, ht⟩ := ih1 F inG hke pre p post1 h1 hp1 hg
+      refine ⟨.bin e' ws1 op ws2 x, ⟨fun F inG hk => ?_, by simp [Ex.garb, hl.2.1], rfl, rfl⟩, by simp [Ex.toks, ht]⟩
+      have := hl.1 F inG
+      simp_all [Ex.ok, triv_fill hw, triv_gfill hw]
+  · subst h1
+    rcases split_app h2 with ⟨post1, h3, h4⟩ | ⟨pre3, h3, h4⟩
+    · subst h3 h4
+      refine ⟨.bin e1 (pre2 ++ p :: w :: post1) op ws2 x, ⟨fun F inG hk => ?_, rfl, rfl, rfl⟩, by simp [Ex.toks]⟩
+      simp_all [Ex.ok, triv_fill hw, triv_gfill hw]
+    · subst h3
+      rcases split_cons h4 with ⟨h5, h6, h7⟩ | ⟨pre4, h5, h7⟩
+      · subst h5 h6 h7
+        refine ⟨.bin e1 ws1 op (w :: ws2) x, ⟨fun F inG hk => ?_, rfl, rfl, rfl⟩, by simp [Ex.toks]⟩
+        simp_all [Ex.ok, triv_fill hw, triv_gfill hw]
+      · subst h5
+        rcases split_app h7 with ⟨post1, h8, h9⟩ | ⟨pre5, h8, h9⟩
+        · subst h8 h9
+          refine ⟨.bin e1 ws1 op (pre4 ++ p :: w :: post1) x, ⟨fun F inG hk => ?_, rfl, rfl, rfl⟩, by simp [Ex.toks]⟩
+          simp_all [Ex.ok, triv_fill hw, triv_gfill hw]
+        · subst h8
+          have hkx : x.ok F inG = true := by simp_all [Ex.ok, triv_fill hw, triv_gfill hw]
+          obtain ⟨x', hl, ht⟩ := ihx F inG hkx pre5 p post h9 hpost hg
+          refine ⟨.bin e1 ws1 op ws2 x', ⟨fun F inG hk => ?_, by simp [Ex.garb, hl.2.1], rfl, rfl⟩, by simp [Ex.toks, ht]⟩
+          have := hl.1 F inG
+          have := hl.2.2.1
+          simp_all [Ex.ok, triv_fill hw, triv_gfill hw]
+
+theorem ins_sep (e1 : Ex) (ws1 : List PToken) (t : PToken) (ws2 : List PToken) (x : Ex) (ih1 : InsOK w e1)
+    (ihx : InsOK w x) : InsOK w (.sep e1 ws1 t ws2 x) := by
+  intro F inG hok pre p post h hpost hg
+  simp only [Ex.toks] at h
+  rcases split_app h with ⟨post1, h1, h2⟩ | ⟨pre2, h1, h2⟩
+  · subst h2
+    have hke : e1.ok F inG = true := by (cases inG <;> simp_all [Ex.ok, triv_fill hw, triv_gfill hw])
+    by_cases hp1 : post1 = []
+    · subst hp1
+      refine ⟨.sep e1 (w :: ws1) t ws2 x, ⟨fun F inG hk => ?_, rfl, rfl, rfl⟩, by simp [Ex.toks, h1]⟩
+      (cases inG <;> simp_all [Ex.ok, triv_fill hw, triv_gfill hw])
+    · obtain ⟨e', hl, ht⟩ := ih1 F inG hke pre p post1 h1 hp1 hg
+      refine ⟨.sep e' ws1 t ws2 x, ⟨fun F inG hk => ?_, by simp [Ex.garb, hl.2.1], rfl, rfl⟩, by simp [Ex.toks, ht]⟩
+      have := hl.1 F inG
+      (cases inG <;> simp_all [Ex.ok, triv_fill hw, triv_gfill hw])
+  · subst h1
+    rcases split_app h2 with ⟨post1, h3, h4⟩ | ⟨pre3, h3, h4⟩
+    · subst h3 h4
+      refine ⟨.sep e1 (pre2 ++ p :: w :: post1) t ws2 x, ⟨fun F inG hk => ?_, rfl, rfl, rfl⟩, by simp [Ex.toks]⟩
+      (cases inG <;> simp_all [Ex.ok, triv_fill hw, triv_gfill hw])
+    · subst h3
+      rcases split_cons h4 with ⟨h5, h6, h7⟩ | ⟨pre4, h5, h7⟩
+      · subst h5 h6 h7
+        refine ⟨.sep e1 ws1 t (w :: ws2) x, ⟨fun F inG hk => ?_, rfl, rfl, rfl⟩, by simp [Ex.toks]⟩
+        (cases inG <;> simp_all [Ex.ok, triv_fill hw, triv_gfill hw])
+      · subst h5
+        rcases split_app h7 with ⟨post1, h8, h9⟩ | ⟨pre5, h8, h9⟩
+        · subst h8 h9
+          refine ⟨.sep e1 ws1 t (pre4 ++ p :: w :: post1) x, ⟨fun F inG hk => ?_, rfl, rfl, rfl⟩, by simp [Ex.toks]⟩
+          (cases inG <;> simp_all [Ex.ok, triv_fill hw, triv_gfill hw])
+        · subst h8
+          have hkx : x.ok F inG = true := by (cases inG <;> simp_all [Ex.ok, triv_fill hw, triv_gfill hw])
+          obtain ⟨x', hl, ht⟩ := ihx F inG hkx pre5 p post h9 hpost hg
+          refine ⟨.sep e1 ws1 t ws2 x', ⟨fun F inG hk => ?_, by simp [Ex.garb, hl.2.1], rfl, rfl⟩, by simp [Ex.toks, ht]⟩
+          have := hl.1 F inG
+          have := hl.2.2.1
+          (cases inG <;> simp_all [Ex.ok, triv_fill hw, triv_gfill hw])
+
+omit hw in
+theorem any_insert (Q : PToken → Bool) (u v : List PToken) (p w : PToken) (h : (u ++ p :: v).any Q = true) :
+    (u ++ p :: w :: v).any Q = true := by
+  simp only [List.any_append, List.any_cons, Bool.or_eq_true] at h ⊢
+  rcases h with h | h | h
+  · exact Or.inl h
+  · exact Or.inr (Or.inl h)
+  · exact Or.inr (Or.inr (Or.inr h))
+
+omit hw in
+theorem all_insert (P : PToken → Bool) (u v : List PToken) (p w : PToken) (h : (u ++ p :: v).all P = true)
+    (hw : P w = true) : (u ++ p :: w :: v).all P = true := by
+  simp only [List.all_append, List.all_cons, Bool.and_eq_true] at h ⊢
+  exact ⟨h.1, h.2.1, hw, h.2.2⟩
+
+theorem ins_lst (e1 : Ex) (ws : List PToken) (x : Ex) (ih1 : InsOK w e1) (ihx : InsOK w x) : InsOK w (.lst e1 ws x) := by
+  intro F inG hok pre p post h hpost hg
+  simp only [Ex.toks] at h
+  rcases split_app h with ⟨post1, h1, h2⟩ | ⟨pre2, h1, h2⟩
+  · subst h2
+    have hke : e1.ok F inG = true := by simp_all [Ex.ok, triv_fill hw, triv_gfill hw]
+    by_cases hp1 : post1 = []
+    · subst hp1
+      refine ⟨.lst e1 (w :: ws) x, ⟨fun F inG hk => ?_, rfl, rfl, rfl⟩, by simp [Ex.toks, h1]⟩
+      simp_all [Ex.ok, triv_fill hw, triv_gfill hw]
+    · obtain ⟨e', hl, ht⟩ := ih1 F inG hke pre p post1 h1 hp1 hg
+      refine ⟨.lst e' ws x, ⟨fun F inG hk => ?_, by simp [Ex.garb, hl.2.1], rfl, rfl⟩, by simp [Ex.toks, ht]⟩
+      have := hl.1 F inG
+      have := hl.2.2.2
+      simp_all [Ex.ok, triv_fill hw, triv_gfill hw]
+  · subst h1
+    rcases split_app h2 with ⟨post1, h3, h4⟩ | ⟨pre3, h3, h4⟩
+    · subst h3 h4
+      refine ⟨.lst e1 (pre2 ++ p :: w :: post1) x, ⟨fun F inG hk => ?_, rfl, rfl, rfl⟩, by simp [Ex.toks]⟩
+      simp only [Ex.ok, Bool.and_eq_true] at hk ⊢
+      obtain ⟨⟨⟨⟨⟨⟨a1, a2⟩, a3⟩, a4⟩, a5⟩, a6⟩, a7⟩ := hk
+      exact ⟨⟨⟨⟨⟨⟨a1, a2⟩, a3⟩, all_insert _ _ _ _ _ a4 (triv_gfill hw _)⟩, any_insert _ _ _ _ _ a5⟩, a6⟩, a7⟩
+    · subst h3
+      have hkx : x.ok F inG = true := by simp_all [Ex.ok, triv_fill hw, triv_gfill hw]
+      obtain ⟨x', hl, ht⟩ := ihx F inG hkx pre3 p post h4 hpost hg
+      refine ⟨.lst e1 ws x', ⟨fun F inG hk => ?_, by simp [Ex.garb, hl.2.1], rfl, rfl⟩, by simp [Ex.toks, ht]⟩
+      have := hl.1 F inG
+      have := hl.2.2.1
+      simp_all [Ex.ok, triv_fill hw, triv_gfill hw]
+
+theorem ins_suf (e1 : Ex) (s : PToken) (ih1 : InsOK w e1) : InsOK w (.suf e1 s) := by
+  intro F inG hok pre p post h hpost hg
+  simp only [Ex.toks] at h
+  rcases split_app h with ⟨post1, h1, h2⟩ | ⟨pre2, h1, h2⟩
+  · subst h2
+    have hke : e1.ok F inG = true := by simp_all [Ex.ok, triv_fill hw, triv_gfill hw]
+    by_cases hp1 : post1 = []
+    · subst hp1
+      exact (not_last_of_good hke h1 hg).elim
+    · obtain ⟨e', hl, ht⟩ := ih1 F inG hke pre p post1 h1 hp1 hg
+      refine ⟨.suf e' s, ⟨fun F inG hk => ?_, by simp [Ex.garb, hl.2.1], rfl, rfl⟩, by simp [Ex.toks, ht]⟩
+      have := hl.1 F inG
+      simp_all [Ex.ok, triv_fill hw, triv_gfill hw]
+  · rcases split_cons h2 with ⟨_, _, h3⟩ | ⟨pre3, _, h3⟩
+    · exact absurd h3.symm hpost
+    · simp at h3
+
+theorem ins_lead (op : PToken) (ws : List PToken) (x : Ex) (ihx : InsOK w x) : InsOK w (.lead op ws x) := by
+  intro F inG hok pre p post h hpost hg
+  simp only [Ex.toks] at h
+  rcases split_cons h with ⟨h1, h2, h3⟩ | ⟨pre2, h1, h3⟩
+  · subst h1 h2 h3
+    refine ⟨.lead op (w :: ws) x, ⟨fun F inG hk => ?_, rfl, rfl, rfl⟩, by simp [Ex.toks]⟩
+    simp_all [Ex.ok, triv_fill hw, triv_gfill hw]
+  · subst h1
+    rcases split_app h3 with ⟨post1, h4, h5⟩ | ⟨pre3, h4, h5⟩
+    · subst h4 h5
+      refine ⟨.lead op (pre2 ++ p :: w :: post1) x, ⟨fun F inG hk => ?_, rfl, rfl, rfl⟩, by simp [Ex.toks]⟩
+      simp_all [Ex.ok, triv_fill hw, triv_gfill hw]
+    · subst h4
+      have hkx : x.ok F inG = true := by simp_all [Ex.ok, triv_fill hw, triv_gfill hw]
+      obtain ⟨x', hl, ht⟩ := ihx F inG hkx pre3 p post h5 hpost hg
+      refine ⟨.lead op ws x', ⟨fun F inG hk => ?_, by simp [Ex.garb, hl.2.1], rfl, rfl⟩, by simp [Ex.toks, ht]⟩
+      have := hl.1 F inG
+      have := hl.2.2.1
+      simp_all [Ex.ok, triv_fill hw, triv_gfill hw]
+
+/-- **closure under inserting a trivia token after a `Good` token that is not the last one** -/
+theorem ex_insert : ∀ e : Ex, InsOK w e
+  | .atom pre a => ins_atom hw pre a
+  | .br pre o wsA e wsB c => ins_br hw pre o wsA e wsB c (ex_insert e)
+  | .brT pre o wsA e ws1 t ws2 c => ins_brT hw pre o wsA e ws1 t ws2 c (ex_insert e)
+  | .bin e ws1 op ws2 x => ins_bin hw e ws1 op ws2 x (ex_insert e) (ex_insert x)
+  | .suf e s => ins_suf hw e s (ex_insert e)
+  | .lst e ws x => ins_lst hw e ws x (ex_insert e) (ex_insert x)
+  | .sep e ws1 t ws2 x => ins_sep hw e ws1 t ws2 x (ex_insert e) (ex_insert x)
+  | .brC pre o wsA e ws1 k wsB c => ins_brC hw pre o wsA e ws1 k wsB c (ex_insert e)
+  | .lead op ws x => ins_lead hw op ws x (ex_insert x)
+
 end Garnish.Spec
